@@ -89,7 +89,8 @@ PROPS = {
              [],
              ss.c16_run, ss.c16_case),
     "C17": P("GotranxProofs.Properties.C17",
-             ["Gx.C17.lex_skip_blank", "Gx.C17.inline_run", "Gx.C17.lex_comment"],
+             ["Gx.C17.lex_skip_blank", "Gx.C17.inline_run", "Gx.C17.lex_comment", "Gx.C17.lex_crlf", "Gx.C17.lex_blank_line", "Gx.C17.lex_blank_line_crlf",
+              "Gx.C17.lex_continuation_indent", "Gx.C17.lex_continuation_break"],
              ["Gx.Pins.grammar_blocks", "Gx.Pins.grammar_ignore", "Gx.Pins.unit_caught"],
              ls.c17_run, ls.c17_case),
     "C18": P("GotranxProofs.Properties.C18",
